@@ -25,15 +25,16 @@ import numpy as np
 from common import *
 
 IMPORTS = "From CV Require Import Base.Cmp Model.C09_Gibbs.\nFrom Coq Require Import QArith.\nLocal Open Scope Q_scope."
-RULE = ("joint targets with 2-4 blocks (dims 1-2, par_names order shuffled, strategy dict order != par_names), random parent sets "
-        "(cycles allowed), 0-2 data factors; 14 HybridGibbs + 9 legacy cells on O(1) dyadic joints (recording / experimental MH / "
-        "Direct / NUTS-branch samplers x step counts 1-3 incl. missing keys x sample / repeated sample / warm-up(tune_freq) / warm-up "
-        "twice / refused second legacy warm-up / legacy continuation after a warm-up-only call; default, array and plain-number initial "
-        "points); SCALE cells (block scales 2^-40..2^40 mixed, tiny, huge) and FINE-MOVE cells (relative moves 2^-20, 2^-30, 2^-36 at "
-        "scales 1, 2^40, 2^-40, with exact repeats) for both interfaces, a partial-move cell; 12 REAL cells (Gaussian/Gamma hierarchy and "
-        "Gaussian pair with Conjugate, LinearRTO, NUTS, MALA, ULA, CWMH, PCN, MH, Direct; x on scales 2^-40..2^20); 2 fixed witnesses. "
-        "Per run one case for the whole trace, plus one for cached evaluations and one for get_samples. distinct = distinct (target, "
-        "assignment, script/seed, call sequence, check); trivial = the 4 oracle-only cache probes and the cache cases of the REAL cells")
+RULE = ("EXACT cells on dyadic quadratic joints (2-4 blocks, dims 1-2, cycles, indefinite own terms, 0-2 data factors, names "
+        "shuffled, strategy dict order != par_names, density declaration order varied): 15 HybridGibbs + 9 legacy base cells, "
+        "num_sampling_steps lattice {missing,1,2,3}^2, legacy tuple-group lattice, two-parent priors, scale 2^-40..2^40, fine-move "
+        "2^-20/-30/-36, partial-move, initial points default/array/plain number/zero/int64/binary32/strided/read-only, reuse of a joint "
+        "object by a second sampler, sample(0), default optional arguments; REAL cells: 15 HybridGibbs (Conjugate and zero-noise "
+        "LinearRTO draws computed by the model; MH/CWMH/MALA/ULA/NUTS cached logd+gradient in the model state; PCN, UGLA, ConjugateApprox, "
+        "RegularizedLinearRTO, Direct opaque) + 5 legacy (LinearRTO, Conjugate tuple keys adjacent/separated, NUTS, MH), x on scales "
+        "2^-40..2^20; 2 fixed witnesses. Per run one case for the whole trace, plus one for cached evaluations and one for get_samples. "
+        "distinct = distinct (target, assignment, script/seed, call sequence, check); trivial = the 4 oracle-only cache probes and the "
+        "Python-only cache cases of the REAL cells")
 
 
 SIG_STALE = "HybridGibbs.step|restored-cached-target-evaluation-of-previous-conditional:%s"
@@ -339,8 +340,9 @@ def styled(v, style):
     return v
 
 
-def run_hybrid(meta):
-    """run the real HybridGibbs on the scenario; returns the observation dict (json-able)"""
+def run_hybrid(meta, target=None):
+    """run the real HybridGibbs on the scenario; returns the observation dict (json-able).  target: a joint that an earlier
+    Gibbs sampler has already been built on and run with (object reuse), else a fresh one"""
     import cuqi
     from cuqi.experimental.mcmc import HybridGibbs
     C = classes()
@@ -348,7 +350,13 @@ def run_hybrid(meta):
     k = len(spec["names"])
     tr = Trace(spec, meta["probes"])
     zsrcs = {i: {"z": [0.0] * spec["dims"][i]} for i in range(k) if meta["kinds"][i] == "KDirect"}
-    target = build_joint(spec, zsrcs)
+    if target is None:
+        target = build_joint(spec, zsrcs)
+        if meta.get("reuse_target") and not zsrcs:
+            import copy as _copy
+            first = _copy.deepcopy({kk: vv for kk, vv in meta.items() if kk != "reuse_target"})
+            first["inits"] = [None if v is None else [a + 1.0 * spec.get("sig", [1.0] * k)[i] for a in v] for i, v in enumerate(first["inits"])]
+            run_hybrid(first, target=target)                   # a first sampler uses (and is thrown away with) the same joint object
     # per-block scripts: the samplers pop their items in call order
     scripts = [[it for sw in meta["script"] for it in sw[i]] for i in range(k)]
     holders = {"active": None}
@@ -384,7 +392,7 @@ def run_hybrid(meta):
                 if op[0] == "sample":
                     G.sample(op[1])
                 else:
-                    G.warmup(op[1], tune_freq=op[2])
+                    G.warmup(op[1]) if op[2] == 0.1 else G.warmup(op[1], tune_freq=op[2])       # 0.1 is the default: left out
         obs["events"] = tr.events
         obs["cur"] = tr.snapshot()
         obs["stored_lens"] = [len(G.samples[n]) for n in spec["names"]]
@@ -627,7 +635,7 @@ def gen_spec(rng, k, ndata, leaf=None, dims=None, npar_fixed=None):
 
     def coeffs():
         return {"b": dy(rng, -2, 2, 2), "c": dy(rng, -3, 3, 1), "m": dy(rng, -2, 2, 1), "q": rng.choice([-2, -1, 1, 2, 0.5]),
-                "r": rng.choice([-2, -1, -0.5]), "l": dy(rng, -2, 2, 2)}
+                "r": rng.choice([-2, -1, -0.5, -1, 0, 1]), "l": dy(rng, -2, 2, 2)}        # also indefinite / flat own terms
     for i in range(k):
         others = [j for j in range(k) if j != i and j != leaf]
         npar = (rng.choice([0, 1, 1, 2]) if npar_fixed is None else npar_fixed) if others else 0
@@ -687,7 +695,7 @@ HY_CELLS = [
     # (cell, k, ndata, kinds (None = by position pattern), steps pattern, ops)
     ("hybrid/rec/2blk/sample", 2, 0, ["KRec", "KRec"], None, [("sample", 3)]),
     ("hybrid/rec/3blk/lik/steps", 3, 1, ["KRec", "KRec", "KRec"], [2, None, 3], [("sample", 3)]),
-    ("hybrid/rec/4blk/lik2/sample-twice", 4, 2, ["KRec"] * 4, [1, 2, 1, 2], [("sample", 2), ("sample", 2)]),
+    ("hybrid/rec/4blk/lik2/sample-twice", 4, 2, ["KRec"] * 4, [1, 2, 1, 2], [("sample", 2), ("sample", 0), ("sample", 2)]),
     ("hybrid/rec/3blk/warmup+sample", 3, 1, ["KRec"] * 3, [1, 2, None], [("warmup", 4, 0.25), ("sample", 2)]),
     ("hybrid/rec/2blk/warmup-default-freq", 2, 1, ["KRec"] * 2, None, [("warmup", 10, 0.1), ("sample", 1)]),
     ("hybrid/rec/3blk/warmup-twice", 3, 2, ["KRec"] * 3, [2, 1, 1], [("warmup", 2, 0.5), ("sample", 1), ("warmup", 3, 1.0), ("sample", 2)]),
@@ -724,8 +732,9 @@ def gen_hybrid(rng, cell, rep=1):
         j = rng.randrange(k)
         inits[j] = [0.0] * spec["dims"][j]
     init_style = [rng.choice([None, "int", "f32", "view", "ro"]) if rep % 2 else None for _ in range(k)]
+    reuse = bool(rep % 4 == 2 and "KDirect" not in kinds)
     return {"iface": "hybrid", "cell": name, "spec": spec, "kinds": list(kinds), "num_steps": None if steps is None else list(steps),
-            "ops": [list(o) for o in ops], "scales": scales, "inits": inits, "init_scalar": init_scalar, "init_style": init_style, "probes": gen_probes(rng, spec),
+            "ops": [list(o) for o in ops], "scales": scales, "inits": inits, "init_scalar": init_scalar, "init_style": init_style, "reuse_target": reuse, "probes": gen_probes(rng, spec),
             "script": gen_script(rng, spec, kinds, nst, nsw, scales)}
 
 
@@ -922,14 +931,20 @@ def gen_legacy_fine(rng, cell):
 # ------------------------------------------------------------------------------------------
 # legacy Gibbs driver
 # ------------------------------------------------------------------------------------------
-def run_legacy(meta):
+def run_legacy(meta, target=None):
     import cuqi
     from cuqi.sampler import Gibbs
     C = classes()
     spec = meta["spec"]
     k = len(spec["names"])
     tr = Trace(spec, meta["probes"])
-    target = build_joint(spec)
+    if target is None:
+        target = build_joint(spec)
+        if meta.get("reuse_target"):
+            import copy as _copy
+            first = _copy.deepcopy({kk: vv for kk, vv in meta.items() if kk != "reuse_target"})
+            first["ops"] = [o for o in first["ops"]][:1]
+            run_legacy(first, target=target)                   # an earlier Gibbs object on the same joint object
     user_inits = {}
     for i, nm in enumerate(spec["names"]):
         if meta["inits"][i] is not None:
@@ -996,7 +1011,7 @@ def run_legacy(meta):
             obs["par_names"] = list(G.par_names)
             for (ns, nb) in meta["ops"]:
                 try:
-                    ret = G.sample(ns, nb)
+                    ret = G.sample(ns, nb) if nb else G.sample(ns)                               # Nb=0 is the default: left out
                     cols = lambda d: [[[float(a) for a in d[n][:, t]] for n in spec["names"]] for t in range(d[spec["names"][0]].shape[1])]
                     ok_ret = all(np.array_equal(ret[n].samples, G.samples[n]) for n in spec["names"])
                     obs["calls"].append({"samples": cols(G.samples), "warm": cols(G.samples_warmup), "ret_ok": bool(ok_ret),
@@ -1143,6 +1158,7 @@ def gen_legacy(rng, cell):
     if "dens-order" in name and ndata:
         spec["data_pos"] = sorted(rng.randint(0, k - 1) for _ in range(ndata))
     return {"iface": "legacy", "cell": name, "spec": spec, "kinds": list(kinds), "ops": [list(o) for o in ops], "scales": scales, "tuple_key": tk,
+            "reuse_target": bool(rng.random() < 0.3),
             "inits": inits, "probes": gen_probes(rng, spec), "script": gen_script(rng, spec, kk, [1] * k, nsw, scales)}
 
 
@@ -1397,7 +1413,7 @@ def run_real(meta):
                 if op[0] == "sample":
                     G.sample(op[1])
                 else:
-                    G.warmup(op[1], tune_freq=op[2])
+                    G.warmup(op[1]) if op[2] == 0.1 else G.warmup(op[1], tune_freq=op[2])       # 0.1 is the default: left out
         obs["events"] = tr.events
         obs["results"] = tr.results
         obs["zused"] = tr.zused
@@ -1776,7 +1792,7 @@ def run_legacy_real(meta):
             obs["par_names"] = list(G.par_names)
             for (ns, nb) in meta["ops"]:
                 try:
-                    ret = G.sample(ns, nb)
+                    ret = G.sample(ns, nb) if nb else G.sample(ns)                               # Nb=0 is the default: left out
                     cols = lambda d: [[[float(a) for a in d[n][:, t]] for n in names] for t in range(d[names[0]].shape[1])]
                     obs["calls"].append({"samples": cols(G.samples), "warm": cols(G.samples_warmup),
                                          "ret_ok": bool(all(np.array_equal(ret[n].samples, G.samples[n]) for n in names)),
